@@ -239,11 +239,15 @@ Rebind(v) ==
 \* extended alphabet: g.throw(exc) into a suspended generator that does not handle it; the
 \* thrower catches.  The generator finishes by raising.
 Throw(id, draw) ==
-  /\ AllowThrow /\ CanAct /\ id \in 1..Len(fr) /\ fr[id].st = "susp" /\ Kind[fr[id].f] = "gen" /\ ~InChain(id)
+  /\ AllowThrow /\ CanAct /\ id \in 1..Len(fr) /\ ~InChain(id)
+  /\ \/ fr[id].st = "susp" /\ Kind[fr[id].f] = "gen"
+     \* ... or into a generator / coroutine that was created but never started: the call is entered and left by the exception
+     \* at once (call event, then a return event whose last opcode is RETURN_GENERATOR and whose arg is None)
+     \/ fr[id].st = "new" /\ Kind[fr[id].f] \in {"gen", "coro"}
   /\ fr' = [fr EXCEPT ![id].st = "done"]
   /\ truth' = AddTruth(truth, id, ABSENT)
-  /\ LET s1 == OnCall(Cur, id, fr[id].f, fr[id].cur, FALSE, draw)
-         s2 == IF Dev_ThrowIsYield THEN OnReturn(s1, id, fr[id].f, "YIELD_VALUE", NoneTok)
+  /\ LET s1 == OnCall(Cur, id, fr[id].f, fr[id].cur, fr[id].st = "new", draw)
+         s2 == IF Dev_ThrowIsYield /\ fr[id].st = "susp" THEN OnReturn(s1, id, fr[id].f, "YIELD_VALUE", NoneTok)
                ELSE OnReturn(s1, id, fr[id].f, "OTHER", NoneTok)
      IN Commit(s2)
   /\ hist' = Append(hist, [op |-> "Throw", f |-> fr[id].f, id |-> id, v |-> NoneTok, catch |-> TRUE, draw |-> draw, ch |-> <<id>>])
